@@ -74,7 +74,23 @@ pub fn run(k: &str, c: &Value) -> Value {
                 };
                 json!({"p3": hp3(&p3), "uv": hp2(&uv0), "tri": triv, "uv_back": back_uv, "to3": to3, "from3": from3, "from3_t": from3_t})
             }).collect();
-            json!({"out": out})
+            // a mesh that carries a UV map has one UV triangle per face, whatever is done to it: appending a piece without a map
+            // (and a mapped mesh onto an unmapped one) either fails or leaves the two in step, and the round trip still holds
+            let piece = Mesh::new(verts.iter().map(|p| Point3::new(p.x + 100.0, p.y, p.z)).collect(), faces.clone(), false);
+            let mut grown = mesh.clone();
+            let ok = grown.append(&piece).is_ok();
+            let mut grown2 = piece.clone();
+            let ok2 = grown2.append(&mesh).is_ok();
+            let q0 = Point3::from((verts[faces[0][0] as usize].coords + verts[faces[0][1] as usize].coords + verts[faces[0][2] as usize].coords) / 3.0);
+            let far = Point3::new(q0.x + 100.0, q0.y, q0.z);
+            let probe = |m: &Mesh, p: &Point3| std::panic::catch_unwind(std::panic::AssertUnwindSafe(|| m.uv_with_tol(p, 1e-3, std::f64::consts::FRAC_PI_2, None)
+                .and_then(|(uv, _)| m.uv_to_3d(&uv)).map(|s| hp3(&s.point)))).map_err(|_| ()).ok();
+            let append = json!({"ok": ok, "faces": grown.faces().len(), "uv_faces": grown.uv().map(|u| u.faces().len()),
+                                "ok_rev": ok2, "faces_rev": grown2.faces().len(), "uv_faces_rev": grown2.uv().map(|u| u.faces().len()),
+                                "q0": hp3(&q0), "far": hp3(&far),
+                                "near_trip": match probe(&grown, &q0) { Some(v) => json!(v), None => json!({"panic": true}) },
+                                "far_trip": match probe(&grown, &far) { Some(v) => json!(v), None => json!({"panic": true}) }});
+            json!({"out": out, "append": append})
         }
         _ => json!({"unknown": k}),
     }
